@@ -349,7 +349,7 @@ func checkC13(c *vkit.Ctx) {
 		c.P.Exhaustive = map[string]bool{}
 	}
 	c.P.Exhaustive["abc_len<=5_pairs"] = c.OnlyCase < 0
-	n := c.N(30000, 1500000)
+	n := c.N(300000, 10000000)
 	for j := 0; j < n; j++ {
 		i := total + j
 		if !c.Mine(i) {
